@@ -10,10 +10,11 @@ package main
 // reading of the documented --whitelist-domain rules. Login start: Location == configured authorization endpoint.
 // Fidelity: safe same-site path+query comes back byte for byte after login.
 //
-// Structure: the bulk (exhaustive enumeration on sign_out x 7 whitelist configurations, then the carried-over strings through
-// the 16 other channels) is single-request string work and runs in a child process from the NON-race build of the same
-// harness ($VERIF_BIN_NORACE, TestVerif_C06Bulk); the race build runs the self-tests, a smaller pass over all channels,
-// the wire comparison and the fidelity clause, and merges the child's evidence and violations.
+// Structure: the bulk (exhaustive enumeration on sign_out under each of 7 whitelist configurations, then the carried-over
+// strings through the 16 other channels) is single-request string work and runs in 14 child processes (7 configurations x 2
+// shards) from the NON-race build of the same harness ($VERIF_BIN_NORACE, TestVerif_C06Bulk) — processes, because the proxy
+// serialises requests on a process-wide lock; the race build runs the self-tests, the fidelity clause, a smaller pass over
+// all channels and the wire comparison, and merges the children's evidence and violations.
 
 import (
 	"encoding/json"
@@ -99,160 +100,169 @@ func (u *c06Universe) At(idx int) (string, bool) {
 	return u.known[idx-u.nFam], false
 }
 
-// c06Bulk: phase 1 = the whole universe on sign_out?rd= for every whitelist configuration; phase 2 = the short strings plus
-// everything phase 1 saw kept or BrowserURL resolves off-origin, through every other channel.
-func c06Bulk(t testing.TB, env vfEnvT, workers int) *c06BulkResult {
+// c06Bulk runs one job of the bulk: whitelist configuration wi, shard `shard` of `nShards` of the universe (index modulo).
+//
+//	phase 1 = the shard on sign_out?rd=; phase 2 = the short strings plus everything phase 1 saw kept under this configuration
+//	or BrowserURL resolves off-origin if echoed, through every other channel.
+//
+// The proxy serialises requests on a process-wide lock (its per-request metrics middleware registers with the default
+// Prometheus registry), so the jobs run as separate processes: that, not goroutines, is what uses the cores.
+func c06Bulk(t testing.TB, env vfEnvT, workers, wi, shard, nShards int) *c06BulkResult {
 	acc := c06NewAcc()
 	res := &c06BulkResult{Acc: acc, Stats: map[string]int64{}}
 	w0 := vfNewWorld(t)
 	defer w0.Close()
 	u := c06NewUniverse(env)
-	res.Stats["universe"] = int64(u.total)
-	res.Stats["universe_enumerated_le_tokens"] = int64(u.maxTok)
-	res.Stats["universe_enumerated"] = int64(u.nEnum)
-	res.Stats["universe_prefixed"] = int64(len(c06Prefixes) * u.nPref)
-	res.Stats["universe_random"] = int64(u.nRand)
-	res.Stats["universe_slash_filler_slash_family"] = int64(u.nFam)
-	res.Stats["universe_known_bad_seeds"] = int64(len(u.known))
-
-	var ctxs []*c06Ctx
-	wls := c06WLs
-	if n, err := strconv.Atoi(os.Getenv("VERIF_C06_DEV_WL")); err == nil && n > 0 && n < len(wls) { // development aid only
-		wls = wls[:n]
+	if wi == 0 && shard == 0 {
+		res.Stats["universe"] = int64(u.total)
+		res.Stats["universe_enumerated_le_tokens"] = int64(u.maxTok)
+		res.Stats["universe_enumerated"] = int64(u.nEnum)
+		res.Stats["universe_prefixed"] = int64(len(c06Prefixes) * u.nPref)
+		res.Stats["universe_random"] = int64(u.nRand)
+		res.Stats["universe_slash_filler_slash_family"] = int64(u.nFam)
+		res.Stats["universe_known_bad_seeds"] = int64(len(u.known))
 	}
+	nWL := len(c06WLs)
+	cx, err := c06NewCtx(w0, c06WLs[wi])
+	if err != nil {
+		t.Fatalf("c06: building instances for whitelist %v: %v", c06WLs[wi].Entries, err)
+	}
+	defer cx.Close()
+	// window: a string that is not driven under every configuration meets the 2 (quick) / 3 (thorough) configurations
+	// that follow its hash
+	window := func(h uint64) bool { return (wi-int(h%uint64(nWL))+nWL)%nWL < env.Pick(2, 3) }
 	t0 := time.Now()
-	for _, wl := range wls {
-		cx, err := c06NewCtx(w0, wl)
-		if err != nil {
-			t.Fatalf("c06: building instances for whitelist %v: %v", wl.Entries, err)
-		}
-		ctxs = append(ctxs, cx)
-	}
-	baseA := ctxs[0].BaseA
 	// ---- phase 1
-	flags := make([]uint8, u.total) // 1 = kept under some whitelist, 2 = off-origin if echoed verbatim
-	for wi, cx := range ctxs {
-		c06Chunks(u.total, 2048, workers, func(lo, hi int) {
-			loc := c06NewAcc()
-			for i := lo; i < hi; i++ {
-				s, _ := u.At(i)
-				if u.IsRandom(i) && len(ctxs) == 7 && (wi-int(c06Hash(s)%7)+7)%7 >= env.Pick(2, 3) {
-					continue // a random string meets 2 (quick) / 3 (thorough) of the 7 configurations; enumerated ones meet all
-				}
-				kept, _ := cx.drive(loc, "so-rd", s, nil)
-				if kept {
-					flags[i] |= 1
-				}
-				if v, _ := c06Verdict(s, baseA, nil); v == "off" || v == "scheme" {
-					flags[i] |= 2
-				}
+	flags := make([]uint8, u.total) // 1 = kept under this whitelist, 2 = off-origin if echoed verbatim
+	c06Chunks(u.total, 2048, workers, func(lo, hi int) {
+		loc := c06NewAcc()
+		for i := lo; i < hi; i++ {
+			if i%nShards != shard {
+				continue
 			}
-			acc.merge(loc)
-		})
-	}
-	res.Stats["wall_ms_phase1"] = time.Since(t0).Milliseconds()
+			s, _ := u.At(i)
+			if u.IsRandom(i) && !window(c06Hash(s)) {
+				continue // a random string meets 2 (quick) / 3 (thorough) of the 7 configurations; enumerated ones meet all
+			}
+			kept, _ := cx.drive(loc, "so-rd", s, nil)
+			if kept {
+				flags[i] |= 1
+			}
+			if v, _ := c06Verdict(s, cx.BaseA, nil); v == "off" || v == "scheme" {
+				flags[i] |= 2
+			}
+		}
+		acc.merge(loc)
+	})
+	res.Stats["wall_ms_phase1_max"] = time.Since(t0).Milliseconds()
 	t0 = time.Now()
 	// ---- carry-over
-	// "short" strings (<=2 / <=3 tokens) and the repository's list go through every channel under every whitelist; a carried
-	// string (kept under some whitelist, or off-origin if echoed) goes through every cheap channel under 2 (quick) / 3
-	// (thorough) of the 7 whitelist configurations chosen by its hash; the login channels take the shortest strings, the list and a
-	// hash sample of the carried ones. Big sub-spaces of the thorough tier (4-token, random) are carried at 1/64.
+	// "short" strings (<=2 / <=3 tokens) and the repository's list go through every cheap channel under every configuration.
+	// Carried strings: an absolute URL kept under this configuration is driven under it (that is where it matters); a kept
+	// relative path (the whitelist plays no part) and a string that is merely dangerous if echoed are driven under the
+	// configurations of their hash window. Login channels: the shortest strings and the list (under 3 / all configurations)
+	// and a hash sample of the carried ones. Big sub-spaces of the thorough tier (4-token, random, ...) are carried at 1/64.
 	type item struct {
 		s     string
-		all   bool // under every whitelist configuration
 		login bool
-		h     uint64
 	}
-	shortTok := env.Pick(2, 3)
-	nShort := c06CountUpTo(len(c06Tokens), shortTok)
+	nShort := c06CountUpTo(len(c06Tokens), env.Pick(2, 3))
 	nLoginShort := c06CountUpTo(len(c06Tokens), 2)
 	seen := map[string]bool{}
 	var items []item
 	var nKept, nOff, nBigDropped, nLogin int64
-	for i := 0; i < u.total; i++ {
+	for i := shard; i < u.total; i += nShards {
 		s, big := u.At(i)
 		isKnown := i >= u.total-len(u.known)
 		short := i < nShort || isKnown
-		if flags[i]&1 != 0 {
+		keptHere, off := flags[i]&1 != 0, flags[i]&2 != 0
+		if keptHere {
 			nKept++
 		}
-		if flags[i]&2 != 0 {
+		if off {
 			nOff++
 		}
-		if !short && flags[i] == 0 {
+		if !short && !keptHere && !off {
 			continue
 		}
 		if !short && big && c06Hash(s)%64 != 0 {
 			nBigDropped++
 			continue
 		}
+		h := c06Hash(s)
+		keptAbs := keptHere && !strings.HasPrefix(s, "/")
+		if !short && !keptAbs && !window(h) {
+			continue
+		}
 		if seen[s] {
 			continue
 		}
 		seen[s] = true
-		h := c06Hash(s)
-		it := item{s: s, all: short, h: h}
-		it.login = i < nLoginShort || isKnown || (h>>20)%uint64(env.Pick(8, 4)) == 0
+		it := item{s: s}
+		switch {
+		case i < nLoginShort || isKnown:
+			it.login = (wi-int(h%uint64(nWL))+nWL)%nWL < env.Pick(3, nWL)
+		default:
+			it.login = (h>>20)%uint64(env.Pick(8, 4)) == 0
+		}
 		if it.login {
 			nLogin++
 		}
 		items = append(items, it)
 	}
-	res.Stats["phase1_kept_under_some_whitelist"] = nKept
-	res.Stats["phase1_off_origin_if_echoed"] = nOff
+	res.Stats["phase1_kept(summed_over_configurations)"] = nKept
+	res.Stats["phase1_off_origin_if_echoed(summed_over_configurations)"] = nOff
 	res.Stats["carried_sampled_out_(1/64_of_big_subspaces_kept)"] = nBigDropped
-	res.Stats["phase2_strings_cheap_channels"] = int64(len(items))
-	res.Stats["phase2_strings_login_channels"] = nLogin
+	res.Stats["phase2_string_x_whitelist_pairs_cheap_channels"] = int64(len(items))
+	res.Stats["phase2_string_x_whitelist_pairs_login_channels"] = nLogin
 	for _, it := range items {
-		if c06Hash(it.s+"w")%uint64(1+len(items)/1500) == 0 {
+		if c06Hash(it.s+"w")%uint64(1+len(items)*nShards*nWL/1500) == 0 {
 			res.Interesting = append(res.Interesting, it.s)
 		}
 	}
 	// ---- phase 2
 	const block = 8000 // strings per login world (the fake IdP logs every login; worlds are discarded to bound memory)
-	var pairs int64
-	for wi, cx := range ctxs {
-		var sel []item
-		for _, it := range items {
-			// carried strings: 2 (quick) / 3 (thorough) consecutive configurations starting at a hash-chosen one
-			d := (wi - int(it.h%uint64(len(ctxs))) + len(ctxs)) % len(ctxs)
-			if it.all || d < env.Pick(2, 3) || len(ctxs) < 3 {
-				sel = append(sel, it)
-			}
+	for lo := 0; lo < len(items); lo += block {
+		hi := lo + block
+		if hi > len(items) {
+			hi = len(items)
 		}
-		pairs += int64(len(sel))
-		for lo := 0; lo < len(sel); lo += block {
-			hi := lo + block
-			if hi > len(sel) {
-				hi = len(sel)
-			}
-			if err := cx.Rotate(t); err != nil {
-				t.Fatalf("c06: building login instances for whitelist %v: %v", cx.WL.Entries, err)
-			}
-			part := sel[lo:hi]
-			c06Chunks(len(part), 64, workers, func(a, b int) {
-				loc := c06NewAcc()
-				st := &c06State{}
-				for _, it := range part[a:b] {
-					for _, ch := range c06CheapChannels[1:] { // so-rd was phase 1
+		if err := cx.Rotate(t); err != nil {
+			t.Fatalf("c06: building login instances for whitelist %v: %v", cx.WL.Entries, err)
+		}
+		part := items[lo:hi]
+		c06Chunks(len(part), 64, workers, func(a, b int) {
+			loc := c06NewAcc()
+			st := &c06State{}
+			for _, it := range part[a:b] {
+				for _, ch := range c06CheapChannels[1:] { // so-rd was phase 1
+					cx.drive(loc, ch, it.s, st)
+				}
+				if it.login {
+					for _, ch := range c06LoginChannels {
 						cx.drive(loc, ch, it.s, st)
 					}
-					// login channels: under 3 (quick) / all (thorough) configurations for the short strings, else as selected
-					d := (wi - int(it.h%7) + 7) % 7
-					if it.login && (!it.all || d < env.Pick(3, 7) || len(ctxs) < 7) {
-						for _, ch := range c06LoginChannels {
-							cx.drive(loc, ch, it.s, st)
-						}
-					}
 				}
-				acc.merge(loc)
-			})
-		}
-		cx.Close()
+			}
+			acc.merge(loc)
+		})
 	}
-	res.Stats["phase2_string_x_whitelist_pairs"] = pairs
-	res.Stats["wall_ms_phase2"] = time.Since(t0).Milliseconds()
+	res.Stats["wall_ms_phase2_max"] = time.Since(t0).Milliseconds()
 	return res
+}
+
+func (r *c06BulkResult) absorb(o *c06BulkResult) {
+	r.Acc.merge(o.Acc)
+	r.Interesting = append(r.Interesting, o.Interesting...)
+	for k, v := range o.Stats {
+		if strings.HasSuffix(k, "_max") {
+			if v > r.Stats[k] {
+				r.Stats[k] = v
+			}
+		} else {
+			r.Stats[k] += v
+		}
+	}
 }
 
 // TestVerif_C06Bulk is the child-process entry (non-race build); it only runs when the parent asks for it.
@@ -262,7 +272,11 @@ func TestVerif_C06Bulk(t *testing.T) {
 		t.Skip("child entry of TestVerif_C06")
 	}
 	vfQuiet()
-	res := c06Bulk(t, vfEnv(), 16)
+	var wi, shard, nShards, workers int
+	if _, err := fmt.Sscanf(os.Getenv("VERIF_C06_JOB"), "%d %d %d %d", &wi, &shard, &nShards, &workers); err != nil || wi < 0 || wi >= len(c06WLs) || nShards < 1 || shard >= nShards {
+		t.Fatalf("c06 bulk child: bad VERIF_C06_JOB %q", os.Getenv("VERIF_C06_JOB"))
+	}
+	res := c06Bulk(t, vfEnv(), workers, wi, shard, nShards)
 	b, err := json.Marshal(res)
 	if err != nil {
 		t.Fatalf("marshal: %v", err)
@@ -273,31 +287,57 @@ func TestVerif_C06Bulk(t *testing.T) {
 }
 
 func c06RunBulk(run *vfRun) *c06BulkResult {
+	total := &c06BulkResult{Acc: c06NewAcc(), Stats: map[string]int64{}}
 	bin := os.Getenv("VERIF_BIN_NORACE")
 	if st, err := os.Stat(bin); bin == "" || err != nil || st.IsDir() || os.Getenv("VERIF_C06_INPROCESS") != "" {
+		// no non-race binary (the test binary was started by hand): same work, in this process, one configuration at a time
 		run.Count("bulk_in_process(no non-race binary)", 1)
-		return c06Bulk(run.T, run.Env, 16)
+		for wi := range c06WLs {
+			total.absorb(c06Bulk(run.T, run.Env, 16, wi, 0, 1))
+		}
+		return total
 	}
 	_ = os.MkdirAll(run.Env.WorkDir, 0o755)
-	out := filepath.Join(run.Env.WorkDir, fmt.Sprintf("c06bulk-%d.json", os.Getpid()))
-	defer os.Remove(out)
-	cmd := exec.Command(bin, "-test.run", "^TestVerif_C06Bulk$", "-test.timeout=0", "-test.count=1")
-	cmd.Dir = run.Env.WorkDir
-	cmd.Env = append(os.Environ(), "VERIF_C06_BULK_OUT="+out)
-	output, err := cmd.CombinedOutput()
-	if err != nil {
-		run.T.Fatalf("c06: bulk child process failed: %v\n%s", err, vfTrunc(string(output), 4000))
+	const nShards, workers = 2, 3 // 7 configurations x 2 shards = 14 processes x 3 workers on 16 cores
+	type job struct{ wi, shard int }
+	var jobs []job
+	for wi := range c06WLs {
+		for sh := 0; sh < nShards; sh++ {
+			jobs = append(jobs, job{wi, sh})
+		}
 	}
-	b, err := os.ReadFile(out)
-	if err != nil {
-		run.T.Fatalf("c06: bulk child wrote no result: %v\n%s", err, vfTrunc(string(output), 4000))
+	var mu sync.Mutex
+	var failures []string
+	vfParallel(len(jobs), len(jobs), func(k int) {
+		j := jobs[k]
+		out := filepath.Join(run.Env.WorkDir, fmt.Sprintf("c06bulk-%d-%d-%d.json", os.Getpid(), j.wi, j.shard))
+		defer os.Remove(out)
+		cmd := exec.Command(bin, "-test.run", "^TestVerif_C06Bulk$", "-test.timeout=0", "-test.count=1")
+		cmd.Dir = run.Env.WorkDir
+		cmd.Env = append(os.Environ(), "VERIF_C06_BULK_OUT="+out, fmt.Sprintf("VERIF_C06_JOB=%d %d %d %d", j.wi, j.shard, nShards, workers), "GOMAXPROCS=4")
+		output, err := cmd.CombinedOutput()
+		var res c06BulkResult
+		if err == nil {
+			var b []byte
+			if b, err = os.ReadFile(out); err == nil {
+				if err = json.Unmarshal(b, &res); err == nil && res.Acc == nil {
+					err = fmt.Errorf("empty result")
+				}
+			}
+		}
+		mu.Lock()
+		defer mu.Unlock()
+		if err != nil {
+			failures = append(failures, fmt.Sprintf("job whitelist=%s shard=%d: %v\n%s", c06WLs[j.wi].Kind, j.shard, err, vfTrunc(string(output), 3000)))
+			return
+		}
+		total.absorb(&res)
+	})
+	if len(failures) > 0 {
+		run.T.Fatalf("c06: bulk child process failed (rig failure, no verdict):\n%s", strings.Join(failures, "\n"))
 	}
-	var res c06BulkResult
-	if err := json.Unmarshal(b, &res); err != nil || res.Acc == nil {
-		run.T.Fatalf("c06: bulk child result unreadable: %v", err)
-	}
-	run.Count("bulk_in_child_process(non-race build)", 1)
-	return &res
+	run.Count("bulk_child_processes(non-race build)", int64(len(jobs)))
+	return total
 }
 
 // ---------------------------------------------------------------------------------------------------------
